@@ -110,6 +110,33 @@ func init() {
 						}
 					}
 					if !guarded {
+						// the test may be made by a predicate of the document the dereference is guarded by (`if !parsed.hasSubject() {
+						// return }`): inside it, the non-nil edge of a test of the same field of the parameter the value was passed as
+						pr, ppth := accessPath(an.Strip(p))
+						for _, g := range an.GuardingEdges(in.Block()) {
+							for _, fe := range an.ImpliedHelperEdges(g) {
+								x, nilSucc, isNil := an.NilTest(fe.If())
+								if !isNil || fe.Succ == nilSucc {
+									continue
+								}
+								xr, xpth := accessPath(an.Strip(x))
+								q, isParam := xr.(*ssa.Parameter)
+								if !isParam || len(xpth) == 0 || len(ppth) < len(xpth) {
+									continue
+								}
+								arg, okArg := fe.ArgOf(q)
+								if !okArg {
+									continue
+								}
+								ar, apth := accessPath(an.Strip(arg))
+								full := append(append([]string{}, apth...), xpth...)
+								if ar != nil && pr != nil && (ar == pr || an.Origin(ar) == an.Origin(pr)) && strings.Join(full, ".") == strings.Join(ppth, ".") {
+									guarded = true
+								}
+							}
+						}
+					}
+					if !guarded {
 						// the field was given a fresh address earlier in this function
 						pl, _ := p.(*ssa.UnOp)
 						if pl != nil {
